@@ -1,108 +1,157 @@
-import OxyModel.Proofs.ConnLimit.Safety
+import OxyModel.Proofs.ConnLimit.Rejecting
 
 /-!
 # C04 — per-source concurrency never exceeds the limit; slots are always returned
 
 Property theorems only (helper lemmas: `OxyModel/Proofs/ConnLimit`).  Model:
-`OxyModel/Model/ConnLimit.lean` (`ConnLimit.step` = `ConnLimiter.ServeHTTP` cut at its two
-lock-atomic steps `acquire` / deferred `release`).  A *history* is any list of events — any
+`OxyModel/Model/ConnLimit.lean`: `ConnLimit.step` = `ConnLimiter.ServeHTTP` cut at its two lock-atomic
+steps `acquire` / deferred `release`, under the layer `ConnLimit.stepR` that also tracks rejections
+*in progress* (requests parked inside a slow `ErrorHandler`; `slow = false` is the default handler,
+for which the layer is `step` itself: `ConnLimit.fast_runR`).  A *history* is any list of events — any
 interleaving of arrivals and completions of any number of requests and sources, including protocol
-misuse (`finish` of an unknown id), extractor errors, and both exit modes.  Every statement about
-"the state after `h`" quantifies over all `h`, hence over every prefix of every interleaving.
+misuse (`finish` of an unknown id), extractor errors, both exit modes and any number of rejections in
+progress.  Every statement about "the state after `h`" quantifies over all `h`, hence over every
+prefix of every interleaving.  `s.base.inflight` are the requests inside the protected handler.
 -/
 namespace C04
 open ConnLimit
 
-/-- **C04 (bound)**: for every limit, every history whose extractor amounts are `≥ 1`, every prefix
-    of it and every source: the number of that source's requests inside the protected handler is at
-    most the limit (`0` when the limit is negative).
+/-- **C04 (bound)**: for every limit, either kind of error handler, every history whose extractor
+    amounts are `≥ 1`, every prefix of it and every source: the number of that source's requests
+    inside the protected handler is at most the limit (`0` when the limit is negative).
     `amount ≥ 1` is needed: the code admits on `connections[src] < max` and then adds `amount`, so
     an extractor that returns `0` (or a negative amount) is never limited — see the `example` below. -/
-theorem C04_inflight_le_max (mx : Int) (h : List Event) (hp : amountsPos h = true) (k : Nat) (src : String) :
-    inflightCount (run (Sys.init mx) (h.take k)).inflight src ≤ mx.toNat := by
-  have := ((Safe.init mx).after_run _ (amountsPos_take (amountsPos_spec hp) k)).bound src
-  rwa [run_max] at this
+theorem C04_inflight_le_max (mx : Int) (slow : Bool) (h : List Event) (hp : amountsPos h = true) (k : Nat) (src : String) :
+    inflightCount (runR (SysR.init mx slow) (h.take k)).base.inflight src ≤ mx.toNat := by
+  have := (Safe.after_runR (s := SysR.init mx slow) (Safe.init mx) _ (amountsPos_take (amountsPos_spec hp) k)).bound src
+  rwa [runR_max] at this
 
 /-- **C04 (429 only when full, and always when full)**: after any unit-amount history (the built-in
-    extractors, C19) a newly arriving request of `src` is rejected iff `src` already has `max`
-    requests inside the handler, and admitted otherwise.  (`id` not in flight: the harness never
-    reuses the id of a running request.) -/
-theorem C04_reject_iff_full (mx : Int) (h : List Event) (h1 : amountsOne h = true) (id src : String)
-    (hfresh : findReq (run (Sys.init mx) h).inflight id = none) :
-    let s := run (Sys.init mx) h
-    ((step s (.start id src 1)).2 = Out.rejected ↔ mx ≤ (inflightCount s.inflight src : Int)) ∧
-    ((step s (.start id src 1)).2 = Out.admitted ↔ (inflightCount s.inflight src : Int) < mx) ∧
-    (0 ≤ mx → ((step s (.start id src 1)).2 = Out.rejected ↔ (inflightCount s.inflight src : Int) = mx)) := by
-  intro s
-  have hu : Unit1 s := (Unit1.init mx).after_run h (amountsOne_spec h1)
-  have hout := hu.start_out id src hfresh
-  have hmax : s.max = mx := run_max _ _
+    extractors, C19) a newly arriving request of `src` is turned away (answered 429, or parked in the
+    slow error handler on its way to 429) iff `src` already has `max` requests inside the protected
+    handler, and admitted otherwise — rejections in progress do not count.  (`id` not in use: the
+    harness never reuses the id of a request that has not ended.) -/
+theorem C04_reject_iff_full (mx : Int) (slow : Bool) (h : List Event) (h1 : amountsOne h = true) (id src : String)
+    (hfresh : findReq (runR (SysR.init mx slow) h).base.inflight id = none)
+    (hfreshR : findRej (runR (SysR.init mx slow) h).rejecting id = none) :
+    let s := runR (SysR.init mx slow) h
+    let o := (stepR s (.start id src 1)).2
+    ((o = .base .rejected ∨ o = .rejecting) ↔ mx ≤ (inflightCount s.base.inflight src : Int)) ∧
+    (o = .base .admitted ↔ (inflightCount s.base.inflight src : Int) < mx) ∧
+    (0 ≤ mx → ((o = .base .rejected ∨ o = .rejecting) ↔ (inflightCount s.base.inflight src : Int) = mx)) := by
+  intro s o
+  have hu : Unit1 s.base := Unit1.after_runR (s := SysR.init mx slow) (Unit1.init mx) h (amountsOne_spec h1)
+  have hout : o = _ := hu.startR_out id src hfresh hfreshR
+  have hmax : s.base.max = mx := runR_max _ _
   have hb := hu.bound src
   rw [hmax] at hout hb
-  by_cases hc : mx ≤ (inflightCount s.inflight src : Int)
+  by_cases hc : mx ≤ (inflightCount s.base.inflight src : Int)
   · simp only [hc, if_true] at hout
-    refine ⟨by simp [hout, hc], by simp [hout]; omega, fun h0 => by simp [hout]; omega⟩
+    by_cases hsl : s.slow = true
+    · simp only [hsl, if_true] at hout
+      refine ⟨by simp [hout, hc], by simp [hout]; omega, fun h0 => by simp [hout]; omega⟩
+    · simp only [hsl] at hout
+      refine ⟨by simp [hout, hc], by simp [hout]; omega, fun h0 => by simp [hout]; omega⟩
   · simp only [hc, if_false] at hout
     refine ⟨by simp [hout, hc], by simp [hout]; omega, fun h0 => by simp [hout]; omega⟩
 
-/-- **C04 (the table is exact)**: after every history (any amounts, exits, misuse) the table entry of
-    every source is exactly what the requests still inside the handler hold, and `totalConnections`
-    is their sum: no finished request — returned or panicked — keeps a slot, no running one lost it. -/
-theorem C04_slots_exact (mx : Int) (h : List Event) (src : String) :
-    get (run (Sys.init mx) h).st.conns src = heldBy (run (Sys.init mx) h).inflight src ∧
-    (run (Sys.init mx) h).st.total = heldAll (run (Sys.init mx) h).inflight :=
-  ⟨((Inv.init mx).after_run h).acct src, ((Inv.init mx).after_run h).tot⟩
+/-- **C04 (the table is exact)**: after every history (any amounts, exits, misuse, rejections in
+    progress) the table entry of every source is exactly what the requests still inside the protected
+    handler hold, and `totalConnections` is their sum: no finished request — returned or panicked —
+    keeps a slot, no running one lost it, and no request that is being rejected has one. -/
+theorem C04_slots_exact (mx : Int) (slow : Bool) (h : List Event) (src : String) :
+    let s := runR (SysR.init mx slow) h
+    get s.base.st.conns src = heldBy s.base.inflight src ∧ s.base.st.total = heldAll s.base.inflight := by
+  intro s
+  have hi : Inv s.base := Inv.after_runR (s := SysR.init mx slow) (Inv.init mx) h
+  exact ⟨hi.acct src, hi.tot⟩
+
+/-- **C04 (a rejection holds nothing)**: in every state, an arrival that is turned away — answered 429
+    at once or parked in the slow error handler — leaves the limiter (table, total, requests inside the
+    handler) exactly as it was, and so does the end of a rejection in progress.  Hence the decision
+    for any later arrival (`C04_reject_iff_full`) cannot depend on rejections, finished or not. -/
+theorem C04_rejection_holds_nothing (s : SysR) (e : Event)
+    (ho : (stepR s e).2 = .base .rejected ∨ (stepR s e).2 = .rejecting ∨ (stepR s e).2 = .rejectedDone) :
+    (stepR s e).1.base = s.base := by
+  cases e with
+  | startErr id => simp [stepR, step] at ho
+  | start id src a =>
+    simp only [stepR] at ho ⊢
+    split
+    · rfl
+    · rename_i hx
+      simp only [hx] at ho
+      by_cases hc : s.slow = true ∧ (step s.base (.start id src a)).2 = .rejected
+      · simp only [hc, and_self, if_true]
+        exact step_rejected_same _ _ hc.2
+      · simp only [hc, if_false] at ho ⊢
+        rcases ho with ho | ho | ho
+        · simp at ho; exact step_rejected_same _ _ ho
+        · cases ho
+        · cases ho
+  | finish id how =>
+    simp only [stepR] at ho ⊢
+    split
+    · rfl
+    · rename_i hx
+      simp only [hx] at ho
+      simp only [step] at ho
+      split at ho <;> simp at ho
 
 /-- **C04 (slot returned on every exit)**: in every reachable state, for every request `r` inside the
     handler, leaving it — by return *or* by panic — gives back exactly `r.amount` to `r.src`, touches
     no other source, takes `r` (and only `r`) out of the handler; the two exit modes lead to the
     same state. -/
-theorem C04_release_on_every_exit (mx : Int) (h : List Event) (id : String) (r : Req)
-    (hf : findReq (run (Sys.init mx) h).inflight id = some r) (how : Exit) :
-    let s := run (Sys.init mx) h
-    let s' := (step s (.finish id how)).1
-    (step s (.finish id how)).2 = Out.released ∧
-    get s'.st.conns r.src = get s.st.conns r.src - r.amount ∧
-    s'.st.total = s.st.total - r.amount ∧
-    (∀ k, k ≠ r.src → get s'.st.conns k = get s.st.conns k) ∧
-    (∀ k, inflightCount s'.inflight k + (if r.src = k then 1 else 0) = inflightCount s.inflight k) ∧
-    step s (.finish id .normal) = step s (.finish id .panic) := by
+theorem C04_release_on_every_exit (mx : Int) (slow : Bool) (h : List Event) (id : String) (r : Req)
+    (hf : findReq (runR (SysR.init mx slow) h).base.inflight id = some r)
+    (hr : findRej (runR (SysR.init mx slow) h).rejecting id = none) (how : Exit) :
+    let s := runR (SysR.init mx slow) h
+    let s' := (stepR s (.finish id how)).1
+    (stepR s (.finish id how)).2 = .base .released ∧
+    get s'.base.st.conns r.src = get s.base.st.conns r.src - r.amount ∧
+    s'.base.st.total = s.base.st.total - r.amount ∧
+    (∀ k, k ≠ r.src → get s'.base.st.conns k = get s.base.st.conns k) ∧
+    (∀ k, inflightCount s'.base.inflight k + (if r.src = k then 1 else 0) = inflightCount s.base.inflight k) ∧
+    stepR s (.finish id .normal) = stepR s (.finish id .panic) := by
   intro s s'
-  have hs' : s' = ⟨s.max, release s.st r.src r.amount, dropReq s.inflight id⟩ := by
-    simp only [s', step, s, hf]
-  refine ⟨by simp only [step, s, hf], ?_, ?_, ?_, ?_, by simp only [step]⟩
+  have hs' : s'.base = ⟨s.base.max, release s.base.st r.src r.amount, dropReq s.base.inflight id⟩ := by
+    simp only [s', stepR, s, hr, step, hf]
+  refine ⟨by simp only [stepR, s, hr, step, hf], ?_, ?_, ?_, ?_, by simp only [stepR, step]⟩
   · rw [hs']; exact release_get_same _ _ _
   · rw [hs']; rfl
   · intro k hk; rw [hs']; exact release_get_other _ _ _ _ hk
   · intro k; rw [hs']; exact count_dropReq hf k
 
 /-- **C04 (quiescence restores the full limit)**: after every history (any amounts, exits, misuse)
-    that leaves no request inside the handler, the table is empty and the total is zero — the limiter
-    is in its initial state — and therefore `max` further arrivals of any one source are all admitted. -/
-theorem C04_quiescent_restores_max (mx : Int) (h : List Event)
-    (hq : (run (Sys.init mx) h).inflight = []) :
-    run (Sys.init mx) h = Sys.init mx ∧
+    that leaves no request inside the protected handler — rejections may still be in progress — the
+    table is empty and the total is zero, i.e. the limiter is in its initial state, and therefore `max`
+    further arrivals of any one source are all admitted. -/
+theorem C04_quiescent_restores_max (mx : Int) (slow : Bool) (h : List Event)
+    (hq : (runR (SysR.init mx slow) h).base.inflight = []) :
+    (runR (SysR.init mx slow) h).base = Sys.init mx ∧
     ∀ (src : String) (ids : List String), ids.Nodup → (ids.length : Int) ≤ mx →
-      outs (run (Sys.init mx) h) (ids.map fun id => Event.start id src 1)
-        = List.replicate ids.length Out.admitted := by
-  have hi := (Inv.init mx).after_run h
-  have hinit : run (Sys.init mx) h = Sys.init mx := by
-    have hm : (run (Sys.init mx) h).max = mx := run_max _ _
-    have hc : (run (Sys.init mx) h).st.conns = [] := by
-      cases hcs : (run (Sys.init mx) h).st.conns with
+      (∀ r ∈ (runR (SysR.init mx slow) h).rejecting, r.id ∉ ids) →
+      outsR (runR (SysR.init mx slow) h) (ids.map fun id => Event.start id src 1)
+        = List.replicate ids.length (OutR.base .admitted) := by
+  have hi : Inv (runR (SysR.init mx slow) h).base := Inv.after_runR (s := SysR.init mx slow) (Inv.init mx) h
+  have hinit : (runR (SysR.init mx slow) h).base = Sys.init mx := by
+    have hm : (runR (SysR.init mx slow) h).base.max = mx := runR_max _ _
+    have hc : (runR (SysR.init mx slow) h).base.st.conns = [] := by
+      cases hcs : (runR (SysR.init mx slow) h).base.st.conns with
       | nil => rfl
       | cons a t =>
         obtain ⟨r, hr, _⟩ := hi.keys a.1 (by simp [hcs])
         rw [hq] at hr; simp at hr
-    have ht : (run (Sys.init mx) h).st.total = 0 := by rw [hi.tot, hq]; rfl
-    generalize run (Sys.init mx) h = s at *
+    have ht : (runR (SysR.init mx slow) h).base.st.total = 0 := by rw [hi.tot, hq]; rfl
+    generalize (runR (SysR.init mx slow) h).base = s at *
     obtain ⟨m, ⟨c, t⟩, l⟩ := s
     simp_all [Sys.init, State.empty]
-  refine ⟨hinit, fun src ids hnd hlen => ?_⟩
-  rw [hinit]
-  apply (Unit1.init mx).admit_all src ids hnd
-  · intro r hr; simp [Sys.init] at hr
-  · simp [Sys.init, inflightCount]; exact hlen
+  refine ⟨hinit, fun src ids hnd hlen hfr => ?_⟩
+  have hu : Unit1 (runR (SysR.init mx slow) h).base := by rw [hinit]; exact Unit1.init mx
+  apply hu.admit_allR src ids hnd
+  · intro r hr; rw [hinit] at hr; simp [Sys.init] at hr
+  · exact hfr
+  · rw [hinit]; simp [Sys.init, inflightCount]; exact hlen
 
 /-! ### non-vacuity and sharpness -/
 
@@ -111,21 +160,30 @@ private def demo : List Event :=
   [.start "a" "s" 1, .start "b" "s" 1, .start "c" "t" 1, .finish "a" .panic, .start "d" "s" 1,
    .finish "zz" .normal, .startErr "e", .finish "c" .normal, .finish "d" .normal]
 
-example : outs (Sys.init 1) demo =
-    [.admitted, .rejected, .admitted, .released, .admitted, .unknown, .extractErr, .released, .released] := by
+example : outsR (SysR.init 1 false) demo =
+    [.base .admitted, .base .rejected, .base .admitted, .base .released, .base .admitted, .base .unknown,
+     .base .extractErr, .base .released, .base .released] := by
   decide
 example : amountsPos demo = true ∧ amountsOne demo = true := by decide
-example : (run (Sys.init 1) demo).inflight = [] := by decide
-example : findReq (run (Sys.init 1) (demo.take 3)).inflight "a" = some ⟨"a", "s", 1⟩ := by decide
-example : findReq (run (Sys.init 1) (demo.take 3)).inflight "fresh" = none := by decide
+example : (runR (SysR.init 1 false) demo).base.inflight = [] := by decide
+example : findReq (runR (SysR.init 1 true) (demo.take 3)).base.inflight "a" = some ⟨"a", "s", 1⟩ := by decide
+example : findReq (runR (SysR.init 1 true) (demo.take 3)).base.inflight "fresh" = none ∧
+    findRej (runR (SysR.init 1 true) (demo.take 3)).rejecting "fresh" = none := by decide
+
+/-- a rejection in progress does not occupy a slot: limit 1, `a` admitted, `b` parked in the slow error
+    handler, `a` finishes, `c` arrives while `b` is still being rejected — and is admitted -/
+example : outsR (SysR.init 1 true) [.start "a" "s" 1, .start "b" "s" 1, .finish "a" .normal, .start "c" "s" 1,
+      .start "b" "s" 1, .finish "b" .normal, .start "d" "s" 1] =
+    [.base .admitted, .rejecting, .base .released, .base .admitted, .base .dup, .rejectedDone, .rejecting] := by
+  decide
 
 /-- sharpness of `amount ≥ 1`: with an extractor amount of `0` three requests of one source are
     inside the handler under limit 1 -/
-example : inflightCount (run (Sys.init 1) [.start "a" "s" 0, .start "b" "s" 0, .start "c" "s" 0]).inflight "s" = 3 := by
+example : inflightCount (runR (SysR.init 1 false) [.start "a" "s" 0, .start "b" "s" 0, .start "c" "s" 0]).base.inflight "s" = 3 := by
   decide
 
 /-- with amount 2 the table entry may exceed the limit while the *number of requests* does not -/
-example : let s := run (Sys.init 3) [.start "a" "s" 2, .start "b" "s" 2, .start "c" "s" 2]
+example : let s := (runR (SysR.init 3 false) [.start "a" "s" 2, .start "b" "s" 2, .start "c" "s" 2]).base
     get s.st.conns "s" = 4 ∧ inflightCount s.inflight "s" = 2 := by decide
 
 end C04
